@@ -390,9 +390,11 @@ class Run:
     def log_entry(self, lab, a):
         # a = (fmt, formatted list) as handed to logger.error
         lst = a[1] if len(a) > 1 and isinstance(a[1], list) else []
+        # format_exception prints the __cause__/__context__ chain first; the section of the logged exception itself is
+        # what follows the LAST chain separator (it has no 'Traceback' header at all when it was given no traceback)
         start = 0
         for i, s in enumerate(lst):
-            if s.startswith('Traceback (most recent call last)'): start = i
+            if 'During handling of the above exception' in s or 'direct cause of the following exception' in s: start = i + 1
         part = lst[start:]
         fr = []
         for s in part:
